@@ -411,6 +411,14 @@ fn create_pkg_length(len: usize, include_self: bool) -> Vec<u8> {
     result
 }
 
+/// Verification hook (off by default): pass-through to the private PkgLength encoder so
+/// that every length can be enumerated without materialising a body of that size.
+#[allow(unexpected_cfgs)]
+#[cfg(rust_vmm_acpi_tables_verif)]
+pub fn verif_create_pkg_length(len: usize, include_self: bool) -> Vec<u8> {
+    create_pkg_length(len, include_self)
+}
+
 /// EISAName object. 'value' means the encoded u32 EisaIdString.
 pub struct EISAName {
     value: DWord,
